@@ -1058,6 +1058,39 @@ def triangle_normal_scenario(prim):
     return f
 
 
+def polygon_normal_rounded_instance(prim):
+    """INSTANCE (bounded, known finding F31): a slanted polygon with concrete corners and the exact boundary point
+    x* = origin + 3/10 (corner_1 - origin); the point handed to normal() is x* with each coordinate perturbed by at most
+    the float32 storage rounding |delta_c| <= 2^-24 |x*_c| (the only float effect modelled).  The edge tests of
+    normal() use isclose with atol 1e-8, which is tighter than that rounding: the obligation 'some edge test fires'
+    (and the engine's own 'divisor non-zero' of the final normalisation) is refuted -- normal() returns 0/0 = NaN."""
+
+    def f(S):
+        o, c1, c2 = [0.3, 0.1], [1.7, 0.9], [0.2, 1.3]
+        dom = S.new(prim.cls, S.new(R2, "x"), o, c1, c2)
+        xs = [core.realval(0.72), core.realval(0.34)]
+        de = [S.real("delta0"), S.real("delta1")]
+        for c in range(2):
+            S.assume(z3.And(de[c].t <= xs[c] / 16777216, de[c].t >= -xs[c] / 16777216))
+        from tpv.tlib import tensor_from_nested, Tensor
+
+        X = Tensor(tensor_from_nested([[Sym(xs[0] + de[0].t, "float"), Sym(xs[1] + de[1].t, "float")]]))
+        pts = S.new(POINTS, X, S.new(R2, "x"))
+        bd = S.getattr(dom, "boundary")
+        cells = []
+        S.on_call(prim.bcls + "._add_local_normal_vector", lambda rec: cells.append(rec["normals"]))
+        S.ctx.ghost["assumed_lemmas"].pop()
+        S.method(bd, "normal", pts)
+        S.ensure("edge-test-observed", len(cells) >= 1)
+        if cells:
+            Nv = cols(cells[0].val, (), 2)
+            S.ensure("some-edge-test-fires-for-the-float32-rounded-boundary-point", dot(Nv, Nv) > 0)
+
+    f.__name__ = f"{prim.name}_normal_at_a_float32_rounded_boundary_point_instance"
+    f.__doc__ = polygon_normal_rounded_instance.__doc__
+    return f
+
+
 class _Oriented(ParallelogramP):
     pass
 
@@ -1096,6 +1129,7 @@ def _register():
         if prim.has_boundary:
             if prim.name in ("parallelogram", "triangle"):
                 scenario("C06", [prim.bcls + "._get_normal_direction"], configs=["any"])(normal_direction_helper_scenario(prim))
+                scenario("C06", [prim.bcls + ".normal", prim.bcls + "._add_local_normal_vector"], configs=["slanted"], bounded="one concrete shape and boundary point; float32 storage rounding of the point only")(polygon_normal_rounded_instance(prim))
                 if prim.name == "triangle":
                     for ori in ("ccw", "cw"):
                         p4 = type(prim)()
